@@ -6,7 +6,7 @@ PROP = dict(
     theorems=["affine_compose_apply", "affine_laws", "affine_det_multiplicative",
               "inline_preserves_resolve", "decompose_preserves_resolve", "decompose_no_spurious_contours",
               "decompose_loses_no_contour", "affine_key_equality",
-              "decompose_multiset_refuted", "flatten_preserves_resolve", "split_preserves_resolve",
+              "decompose_multiset_refuted", "flatten_preserves_resolve", "flatten_across_locations_refuted", "split_preserves_resolve",
               "replacement_preserves_all_glyphs", "options_keep_every_glyph", "option_lattice",
               "stored_components_in_range", "decomposition_locations_transitive", "quantisation_bound", "quantisation_one_unit_per_level"],
     prelude="Require Import FV.C12.Model FV.C12.Locs.\nFrom Coq Require Import List NArith ZArith QArith Qcanon Bool.\n"
